@@ -8,10 +8,14 @@ Scanner, MapScan, SliceMap, the iterator built by executeQuery). Specification: 
 Helper lemmas: `Proofs/C04Prim|Types|Meta|Frames|Resp|Wire|Rows|Maps.lean`.
 The models describe the code AFTER the repairs of KF-C04-1 (readTypeInfo), KF-C04-2 (iterScanner.Scan),
 KF-C04-4 (goType), KF-C04-5 (executeQuery); KF-C04-3 (nil destination on a tuple column) is open.
+`Model/RowsReuse.lean`: typed destinations reused across the rows of a page (section 7; helper lemmas in
+`Proofs/C04Reuse.lean`); KF-C04-6 (an empty cell into a reused `[]byte`) and KF-C04-7 (a short UDT value into a
+reused struct) are open.
 -/
 import Proofs.C04Wire
 import Proofs.C04Rows
 import Proofs.C04Maps
+import Proofs.C04Reuse
 namespace C04
 open FrameRead RespSpec Rows
 
@@ -457,6 +461,220 @@ example :
     let sent := viewMeta { paging := none, cols := .global b!"ks" b!"t" [(b!"b", .native 13)] }
     (iterMetaOld true (some cached) sent).map (fun md => md.columns.map (·.name)) = some [b!"a"] := by rfl
 
+
+/-! ## 7. typed destinations REUSED across the rows of a page: every row is what its own cells say -/
+
+open RowsReuse Marshal in
+/-- FULL PROPERTY (does not hold, see `C04_cex_empty_cell_depends_on_history` and
+    `C04_cex_udt_struct_keeps_stale_field`): as below without the hypothesis `hins`.
+
+    A well-formed page is read with the ordinary loop `for iter.Scan(&x0, …, &xk) { … }` — the SAME typed Go
+    destinations (Go types `tys`, one per destination slot; tuple columns expand) on every call — and the
+    destinations hold ANY values `vals0` before the first row (zero values, or whatever an earlier page / query left).
+    Then the values the destinations hold after row i are the decodes of row i's OWN cells, each into a fresh zero
+    value of its destination's type (`deliver` / `freshCalls`: C12's decode model `Marshal.unmarshal`), whatever the
+    earlier rows contained: null after a value is nil / the zero value, a shorter value after a longer one is the
+    shorter value, a value after null is the value. The first row with a cell that does not decode into its
+    destination's type ends the loop: Scan returns false, iter.err is set, the row is not counted.
+    `hins`: no cell falls under the excluded condition `sensitive` (C04Reuse.lean): an EMPTY cell of a text-family
+    column into an unnamed `[]byte` (KF-C04-6); a non-empty UDT value into a struct when its fields do NOT write every
+    field of the struct (fewer fields than the type, a struct field the type does not name: KF-C04-7) or a written
+    field is itself excluded; a list / set into `*[n]T` whose element type can be excluded (`[n][]byte` of a
+    text-family element, nested `[n]T` / structs); `[n]T` / structs on other column types. A struct whose every field
+    is written and a `*[n]T` of stateless elements ARE inside the claim. -/
+theorem C04_rows_independent_partial (p : Nat) (m : Meta) (rs : List (List Cell)) (tys : List GoTy) (vals0 : List GoVal)
+    (hcols : ∀ n g, m.cols ≠ .omitted n g) (hw : wfRows (colTypes m.cols) rs = true)
+    (hW : totalWidth (colTypes m.cols) = tys.length) (hv : vals0.length = tys.length)
+    (hins : ∀ row ∈ typedRows (colTypes m.cols) rs, insensitive tys (rowCalls 0 row) = true) :
+    let it := iterOf (viewMeta m) rs.length (eRows rs)
+    (scanAllT p tys (rs.length + 1) it vals0).map (fun r => (r.1, r.2.failed, r.2.pos))
+      = (deliver p tys ((typedRows (colTypes m.cols) rs).map (rowCalls 0))).map
+          (fun lf => (lf.1, lf.2, (lf.1.length : Int))) := by
+  intro it
+  obtain ⟨h1, h2, h3⟩ := typedRows_props (colTypes m.cols) rs hw
+  have := scanAllT_ok p tys (typedRows (colTypes m.cols) rs) (colTypes m.cols) it vals0 rfl
+    (by simp [it, iterOf, typedRows]) (by simpa [it, iterOf, viewMeta] using colsMatch_view m.cols) h1 h2 hW
+    (by rw [← hW]; simpa [it, iterOf, viewMeta] using actualCount_eq m.cols hcols)
+    (by simp [it, iterOf, h3]) hv hins
+  simpa [typedRows, it, iterOf] using this
+
+open RowsReuse Marshal in
+/-- the same through the Scanner (`for sc.Next() { sc.Scan(&x0, …, &xk) }`): a cell that does not decode makes
+    that Scan return an error (iter.err stays unset) -/
+theorem C04_rows_independent_scanner_partial (p : Nat) (m : Meta) (rs : List (List Cell)) (tys : List GoTy)
+    (vals0 : List GoVal)
+    (hcols : ∀ n g, m.cols ≠ .omitted n g) (hw : wfRows (colTypes m.cols) rs = true)
+    (hW : totalWidth (colTypes m.cols) = tys.length) (hv : vals0.length = tys.length)
+    (hins : ∀ row ∈ typedRows (colTypes m.cols) rs, insensitive tys (rowCalls 0 row) = true) :
+    let it := iterOf (viewMeta m) rs.length (eRows rs)
+    (scannerAllT p tys (rs.length + 1) it.scanner vals0).map (fun r => (r.1, r.2.1, r.2.2.it.failed))
+      = (deliver p tys ((typedRows (colTypes m.cols) rs).map (rowCalls 0))).map (fun lf => (lf.1, lf.2, false)) := by
+  intro it
+  obtain ⟨h1, h2, h3⟩ := typedRows_props (colTypes m.cols) rs hw
+  have hcm : colsMatch (viewCols m.cols) (colTypes m.cols) := colsMatch_view m.cols
+  have hlen : (viewCols m.cols).length = (colTypes m.cols).length := by
+    have := congrArg List.length hcm
+    simpa using this
+  have := scannerAllT_ok p tys (typedRows (colTypes m.cols) rs) (colTypes m.cols) it.scanner vals0 rfl
+    (by simp [it, iterOf, Iter.scanner, typedRows]) (by simp [it, iterOf, Iter.scanner, viewMeta, hlen])
+    (by simpa [it, iterOf, Iter.scanner, viewMeta] using hcm) h1 h2 hW
+    (by rw [← hW]; simpa [it, iterOf, Iter.scanner, viewMeta] using actualCount_eq m.cols hcols)
+    (by simp [it, iterOf, Iter.scanner, h3]) hv hins
+  simpa [typedRows, it, iterOf] using this
+
+open RowsReuse Marshal in
+/-- the same through MapScan used with pointers (`row := map[string]interface{}{"c": &x, …}` — a NEW map on every
+    call, the SAME variables; helpers.go 418-433): when RowData names every destination (every column has a Go type)
+    and the names are distinct, the loop delivers exactly what the Scan loop delivers -/
+theorem C04_rows_independent_mapscan_partial (p : Nat) (m : Meta) (rs : List (List Cell)) (tys : List GoTy)
+    (vals0 : List GoVal) (names : List FrameRead.Bytes)
+    (hcols : ∀ n g, m.cols ≠ .omitted n g) (hwc : wfCols m.cols = true) (hw : wfRows (colTypes m.cols) rs = true)
+    (hnames : rowDataSpec m.cols = some names) (hd : names.Nodup)
+    (hW : totalWidth (colTypes m.cols) = tys.length) (hv : vals0.length = tys.length)
+    (hins : ∀ row ∈ typedRows (colTypes m.cols) rs, insensitive tys (rowCalls 0 row) = true) :
+    let it := iterOf (viewMeta m) rs.length (eRows rs)
+    (mapScanAllT p tys (rs.length + 1) it vals0).map (fun r => (r.1, r.2.failed, r.2.pos))
+      = (deliver p tys ((typedRows (colTypes m.cols) rs).map (rowCalls 0))).map
+          (fun lf => (lf.1, lf.2, (lf.1.length : Int))) := by
+  intro it
+  have hrd : rowDataColumns (viewCols m.cols) = .ok names := by
+    rw [rowDataColumns_view m.cols hwc, hnames]
+  have hn : rowDataNames it.md.columns = some names := by
+    simp [it, iterOf, viewMeta, rowDataNames, hrd]
+  have hl : names.length = tys.length := by
+    rw [← hW]; exact rowDataColumns_length (viewCols m.cols) (colTypes m.cols) names (colsMatch_view m.cols) hrd
+  rw [mapScanAllT_eq p tys names _ it vals0 hn hl hd]
+  exact C04_rows_independent_partial p m rs tys vals0 hcols hw hW hv hins
+
+open RowsReuse Marshal in
+/-- ROWS ARE INDEPENDENT, without an excluded condition, for every destination list made of the Go types whose
+    Unmarshal never looks at the destination (`statelessTy`: `*string`, `*int…`, `*bool`, `*float…`, `*time.Time`,
+    `*gocql.UUID`, `*[16]byte`, `*big.Int`, `*inf.Dec`, `*net.IP`, `*gocql.Duration`, named `[]byte` types, `*[]T`,
+    `*map[K]V`, `*map[string]interface{}`, `**T`, `*interface{}` — every type except the unnamed `[]byte`, `[n]T` and
+    structs), any column types, ANY cells (null / empty / values / undecodable) in any order, ANY initial destination
+    values, through Scan and through the Scanner. -/
+theorem C04_rows_independent (p : Nat) (m : Meta) (rs : List (List Cell)) (tys : List GoTy) (vals0 : List GoVal)
+    (hcols : ∀ n g, m.cols ≠ .omitted n g) (hw : wfRows (colTypes m.cols) rs = true)
+    (hW : totalWidth (colTypes m.cols) = tys.length) (hv : vals0.length = tys.length)
+    (hst : tys.all statelessTy = true) :
+    let it := iterOf (viewMeta m) rs.length (eRows rs)
+    let spec := deliver p tys ((typedRows (colTypes m.cols) rs).map (rowCalls 0))
+    (scanAllT p tys (rs.length + 1) it vals0).map (fun r => (r.1, r.2.failed, r.2.pos))
+        = spec.map (fun lf => (lf.1, lf.2, (lf.1.length : Int))) ∧
+      (scannerAllT p tys (rs.length + 1) it.scanner vals0).map (fun r => (r.1, r.2.1, r.2.2.it.failed))
+        = spec.map (fun lf => (lf.1, lf.2, false)) :=
+  ⟨C04_rows_independent_partial p m rs tys vals0 hcols hw hW hv (fun _ _ => insensitive_of_stateless tys hst _),
+   C04_rows_independent_scanner_partial p m rs tys vals0 hcols hw hW hv (fun _ _ => insensitive_of_stateless tys hst _)⟩
+
+open RowsReuse Marshal in
+/-- what `deliver` means row by row: the values delivered for row i are the fresh decodes of row i's own calls -/
+theorem C04_row_is_own_decode (p : Nat) (tys : List GoTy) (rows : List (List Call)) (l : List (List GoVal)) (f : Bool)
+    (h : deliver p tys rows = some (l, f)) (i : Nat) (vs : List GoVal) (hi : l[i]? = some vs) :
+    ∃ calls, rows[i]? = some calls ∧ freshCalls p tys calls = .ok vs := by
+  induction rows generalizing l i with
+  | nil => simp [deliver] at h; obtain ⟨rfl, _⟩ := h; simp at hi
+  | cons calls more ih =>
+    simp only [deliver] at h
+    cases hfc : freshCalls p tys calls with
+    | bad => rw [hfc] at h; simp at h
+    | err => rw [hfc] at h; simp at h; obtain ⟨rfl, _⟩ := h; simp at hi
+    | ok v0 =>
+      rw [hfc] at h
+      cases hd : deliver p tys more with
+      | none => rw [hd] at h; simp at h
+      | some lf =>
+        rw [hd] at h
+        simp only [Option.map_some, Option.some.injEq, Prod.mk.injEq] at h
+        obtain ⟨rfl, rfl⟩ := h
+        cases i with
+        | zero => simp at hi; subst hi; exact ⟨calls, by simp, hfc⟩
+        | succ j =>
+          simp only [List.getElem?_cons_succ] at hi
+          obtain ⟨c, hc1, hc2⟩ := ih lf.1 hd j hi
+          exact ⟨c, by simpa using hc1, hc2⟩
+
+/-- a page with one blob column `c` -/
+def blobPage (rows : List (List Cell)) : Iter :=
+  iterOf (viewMeta { paging := none, cols := .global b!"ks" b!"t" [(b!"c", .native 3)] }) rows.length (eRows rows)
+
+open RowsReuse Marshal in
+/-- KF-C04-6 (OPEN), the excluded condition is needed: an EMPTY (zero-length, non-null) blob cell scanned into a
+    `[]byte` variable is reported as an empty non-nil slice when the previous row's cell was a value (rows "a", "")
+    and as nil when it was null (rows null, "") — or when the variable is fresh (KF-C02-2): what the second row
+    delivers depends on the first. (`unmarshalVarchar`: `*v = append((*v)[:0], data...)`.) -/
+theorem C04_cex_empty_cell_depends_on_history :
+    (scanAllT 4 [.bytes false] 3 (blobPage [[.bytes [0x61]], [.bytes []]]) [.bytes false true []]).map (·.1)
+      = some [[.bytes false false [0x61]], [.bytes false false []]] ∧
+    (scanAllT 4 [.bytes false] 3 (blobPage [[.null], [.bytes []]]) [.bytes false true []]).map (·.1)
+      = some [[.bytes false true []], [.bytes false true []]] ∧
+    unmarshalFresh 4 (some .blob) (.bytes false) (some []) = .ok (.bytes false true []) ∧
+    sensitive (some .blob) (.bytes false) (some []) = true :=
+  ⟨by rfl, by rfl, by rfl, by rfl⟩
+
+open RowsReuse Marshal in
+/-- the seeded defect of this family is NOT in the excluded class: null after a value into a reused `[]byte` is
+    covered by `C04_rows_independent_partial` (the model delivers nil) -/
+theorem C04_null_after_value_bytes :
+    insensitive [.bytes false] (rowCalls 0 [(TypeDesc.native 3, Cell.bytes [0x61, 0x62])]) = true ∧
+    insensitive [.bytes false] (rowCalls 0 [(TypeDesc.native 3, Cell.null)]) = true ∧
+    (scanAllT 4 [.bytes false] 3 (blobPage [[.bytes [0x61, 0x62]], [.null]]) [.bytes false true []]).map (·.1)
+      = some [[.bytes false false [0x61, 0x62]], [.bytes false true []]] :=
+  ⟨by rfl, by rfl, by rfl⟩
+
+/-- the UDT `u (a int, b varchar)`, a struct `{A int "cql:a"; B string "cql:b"}` -/
+def cexUdt : ValueSpec.CqlTy := .udt ["a", "b"] [.int, .varchar]
+def cexUdtStruct : Marshal.GoTy := .udtstruct ["a", "b"] [.int .int false, .str false]
+/-- the value (a = 1, b = "x") -/
+def cexUdtFull : FrameRead.Bytes := [0, 0, 0, 4, 0, 0, 0, 1, 0, 0, 0, 1, 0x78]
+/-- the value (a = 5) of a row written before field `b` was added to the type: a UDT value may carry fewer fields
+    than the type has (native protocol, section 6 "User Defined Type") -/
+def cexUdtShort : FrameRead.Bytes := [0, 0, 0, 4, 0, 0, 0, 5]
+
+open RowsReuse Marshal in
+/-- KF-C04-7 (OPEN): a UDT value with fewer fields than the type, unmarshalled into a struct that still holds the
+    previous row's value, keeps the previous row's `b` ("x") — decoded on its own it is (5, ""): unmarshalUDT returns
+    when the value's data is used up and leaves the remaining fields of the struct alone. -/
+theorem C04_cex_udt_struct_keeps_stale_field :
+    unmarshalFresh 4 (some cexUdt) cexUdtStruct (some cexUdtFull)
+      = .ok (.udtstruct ["a", "b"] [.int .int false 1, .str false [0x78]]) ∧
+    unmarshalFresh 4 (some cexUdt) cexUdtStruct (some cexUdtShort)
+      = .ok (.udtstruct ["a", "b"] [.int .int false 5, .str false []]) ∧
+    unmarshalInto 4 (some cexUdt) cexUdtStruct (some cexUdtShort) (.udtstruct ["a", "b"] [.int .int false 1, .str false [0x78]])
+      = .ok (.udtstruct ["a", "b"] [.int .int false 5, .str false [0x78]]) := by
+  have d5 : decInt [0, 0, 0, 5] = 5 := by decide
+  have d1 : decInt [0, 0, 0, 1] = 1 := by decide
+  have us_int : ∀ (isNil : Bool) (d : FrameRead.Bytes),
+      unmarshalScalar .int isNil d (.int .int false) = .ok (.int .int false (decInt d)) := fun _ _ => rfl
+  have us_vc : ∀ (isNil : Bool) (d : FrameRead.Bytes),
+      unmarshalScalar .varchar isNil d (.str false) = .ok (.str false d) := fun _ _ => rfl
+  have l1 : lookupIdx "a" ["a", "b"] 0 = some 0 := by decide
+  have l2 : lookupIdx "b" ["a", "b"] 0 = some 1 := by decide
+  have r1 : readBytesM [0, 0, 0, 4, 0, 0, 0, 5] = some (some [0, 0, 0, 5], []) := by decide
+  have r2 : readBytesM cexUdtFull = some (some [0, 0, 0, 1], [0, 0, 0, 1, 0x78]) := by decide
+  have r3 : readBytesM [0, 0, 0, 1, 0x78] = some (some [0x78], []) := by decide
+  have b5 : unmarshalBase 4 .int (.int .int false) (some [0, 0, 0, 5]) = .ok (.int .int false 5) := by
+    simp [unmarshalBase, us_int, dataBytes, d5]
+  refine ⟨?_, ?_, ?_⟩
+  · simp [unmarshalFresh, unmarshal, withPtr, stripPtr, cexUdt, cexUdtStruct, unmarshalBase, dataBytes, unmarshalUdtStruct,
+      zeroOf, zeroOfs, ValueSpec.shorter, r2, r3, l1, l2, us_int, us_vc, d1]
+    simp [cexUdtFull, ValueSpec.shorter]
+  · simp [unmarshalFresh, unmarshal, withPtr, stripPtr, cexUdt, cexUdtStruct, cexUdtShort, unmarshalBase, dataBytes,
+      unmarshalUdtStruct, zeroOf, zeroOfs, ValueSpec.shorter, r1, l1, us_int, d5]
+  · simp [unmarshalInto, cexUdt, cexUdtStruct, cexUdtShort, intoBase, dataBytes, udtInto, partsOf, fit, ValueSpec.shorter, r1, l1, b5]
+
+open RowsReuse Marshal in
+/-- the excluded condition on structs is exactly "some field of the struct is not written": the full value (a, b) into
+    the struct {a, b} is INSIDE `C04_rows_independent_partial` (whatever the struct held), the short value (a) of
+    KF-C04-7 is outside; a null value resets the struct and is inside; `*[3]int` for a list<int> column is inside,
+    `*[3][]byte` for a list<blob> column is outside (an empty element: KF-C04-6) -/
+theorem C04_struct_excluded_exactly :
+    sensitive (some cexUdt) cexUdtStruct (some cexUdtFull) = false ∧
+    sensitive (some cexUdt) cexUdtStruct (some cexUdtShort) = true ∧
+    sensitive (some cexUdt) cexUdtStruct none = false ∧
+    (∀ d, sensitive (some (.list .int)) (.array 3 (.int .int false)) d = false) ∧
+    (∀ d, sensitive (some (.list .blob)) (.array 3 (.bytes false)) d = true) := by
+  refine ⟨by decide, by decide, by decide, fun _ => rfl, fun _ => rfl⟩
+
 /-! ## 6. non-vacuity -/
 
 /-- a v4 ERROR Unavailable with tracing, warnings and custom payload is well-formed -/
@@ -489,5 +707,12 @@ example : wfRows (colTypes (effCols cexMeta { paging := none, cols := .global b!
 
 /-- MapScan's hypotheses are satisfiable: names of the witness page -/
 example : rowDataSpec cexMeta.cols = some [b!"t[0]", b!"t[1]", b!"a"] := by decide
+
+/-- the hypotheses of C04_rows_independent are satisfiable: a page (c0 blob, c1 int) read into (*string, **int) -/
+example : wfRows (colTypes (Cols.global b!"ks" b!"t" [(b!"c0", .native 3), (b!"c1", .native 9)]))
+    [[.bytes [0x61], .bytes [0, 0, 0, 1]], [.null, .null]] = true ∧
+    totalWidth (colTypes (Cols.global b!"ks" b!"t" [(b!"c0", .native 3), (b!"c1", .native 9)]))
+      = [Marshal.GoTy.str false, .ptr (.int .int false)].length ∧
+    [Marshal.GoTy.str false, .ptr (.int .int false)].all statelessTy = true := by decide
 
 end C04
